@@ -1012,6 +1012,194 @@ theorem c04_registered_rounds (gs : List (List RegCall)) (isRoot : Bool) (n t : 
   simp only [proj, Prod.mk.injEq] at h2
   exact h1.trans h2.1
 
+private theorem dispatch_chans_other (s : IState) (mt : Nat) (b : List Msg) (t : Nat) (h : ¬ t = mt) :
+    (dispatch s mt b).1.chans t = s.chans t := by
+  unfold dispatch
+  cases s.reg.target mt with
+  | none => rfl
+  | handler f => simp only; cases s.reg.flags mt <;> cases f <;> rfl
+  | chan f c =>
+    simp only
+    cases s.reg.flags mt <;> cases f <;> simp [h]
+    split <;> simp [h]
+
+/-- a released batch of message type `t` (collected or bypassing) -/
+def ofType (t : Nat) (b : List Msg) : Bool := !b.isEmpty && b.all (fun m => m.ty == t)
+
+private theorem released_type (cfg : Cfg) (q : Queues) (m : Msg) (hq : QInv cfg q) (b : List Msg)
+    (h : (aggregate cfg q m).2 = some b) : ∀ t, ofType t b = (m.ty == t) := by
+  intro t
+  cases hb : bypass cfg m
+  · have hk := kid_of_not_bypass hb
+    rcases step_kid cfg m.ty q m hk with ⟨_, h'⟩ | ⟨_, h'⟩
+    · rw [h'] at h; simp at h; subst h
+      have hall : ∀ x ∈ q m.ty, x.ty = m.ty := fun x hx => (kid_not_bypass (hq m.ty x hx)).2
+      by_cases e : m.ty = t
+      · subst e
+        simp only [ofType, List.all_append, List.all_cons, List.all_nil, beq_self_eq_true, Bool.and_true]
+        simp
+        intro x hx; exact hall x hx
+      · have hne : (m.ty == t) = false := by simp [e]
+        simp [ofType, hne]
+    · rw [h'] at h; simp at h
+  · rw [c04_bypass cfg q m hb] at h; simp at h; subst h
+    simp [ofType]
+
+/-- **the property for a channel registered in slice form**: as long as the channel has room (the protocol reads
+often enough, or the channel is long enough — otherwise the reader waits, `c04_slice_channel_never_drops`), the
+channel of type `t` receives, in order, exactly the batches `aggregate` releases for `t`: behind what it already
+held, one item per batch. -/
+theorem c04_chan_contents (s : IState) (l : List Msg) (t cap : Nat) (hq : QInv s.cfg s.q)
+    (ht : s.reg.target t = .chan .slice cap) (hf : s.reg.flags t = true)
+    (hroom : (s.chans t).length + ((run s.cfg s.q l).2.filter (ofType t)).length ≤ cap) :
+    (irun s l).1.chans t = s.chans t ++ (run s.cfg s.q l).2.filter (ofType t) := by
+  induction l generalizing s with
+  | nil => simp [irun, run]
+  | cons m l ih =>
+    have hfr := istep_frame s m
+    have hc := istep_cfg s m
+    simp only [run, List.filter_append, List.length_append] at hroom
+    -- what the step does to the channel of t
+    have hstep : (istep s m).1.chans t = s.chans t ++ (aggregate s.cfg s.q m).2.toList.filter (ofType t) := by
+      unfold istep
+      cases hb : (aggregate s.cfg s.q m).2 with
+      | none => simp [hb]
+      | some b =>
+        simp only [hb, Option.toList]
+        have hty := released_type s.cfg s.q m hq b hb t
+        by_cases e : m.ty = t
+        · have ht' : ({ s with q := (aggregate s.cfg s.q m).1 } : IState).reg.target m.ty = .chan .slice cap := by
+            rw [e]; exact ht
+          have hroom' : (s.chans t).length < cap := by
+            have : ofType t b = true := by rw [hty]; simp [e]
+            simp [hb, this] at hroom; omega
+          rw [c04_dispatch_chan_slice { s with q := (aggregate s.cfg s.q m).1 } m.ty cap b ht' (by rw [e]; exact hf)
+            (by rw [e]; exact hroom')]
+          have : ofType t b = true := by rw [hty]; simp [e]
+          simp [e, this]
+        · have : ofType t b = false := by rw [hty]; simp [e]
+          simp only [List.filter_cons, this, List.filter_nil]
+          have hne : ¬ t = m.ty := fun h => e h.symm
+          have := dispatch_chans_other { s with q := (aggregate s.cfg s.q m).1 } m.ty b t hne
+          simpa using this
+    have ih' := ih (istep s m).1 (by rw [hc, hfr.1]; exact qinv_step s.cfg s.q m hq) (by rw [hfr.2.1]; exact ht)
+      (by rw [hfr.2.1]; exact hf) (by rw [hc, hfr.1, hstep]; simp; omega)
+    simp only [irun, run, List.filter_append]
+    rw [ih', hc, hfr.1, hstep, List.append_assoc]
+
+/-- the rounds arrive in the channel: one item per round, exactly the round, when the children's messages of
+type `t` come as consecutive rounds and the channel is long enough for what is not read meanwhile -/
+theorem c04_registered_rounds_chan (s : IState) (l : List Msg) (t cap : Nat) (rounds : List (List Msg))
+    (hfresh : s.q = emptyQ) (hempty : s.chans t = [])
+    (ht : s.reg.target t = .chan .slice cap) (hf : s.reg.flags t = true)
+    (hn : 1 ≤ s.nChildren) (hr : ∀ r ∈ rounds, r.length = s.nChildren)
+    (hl : l.filter (kid s.cfg t) = rounds.flatten)
+    (hroom : ((run s.cfg s.q l).2.filter (ofType t)).length ≤ cap) :
+    ((irun s l).1.chans t).filter (isAggBatch s.cfg t) = rounds := by
+  have hq : QInv s.cfg s.q := by rw [hfresh]; exact qinv_empty _
+  rw [c04_chan_contents s l t cap hq ht hf (by rw [hempty]; simpa using hroom), hempty, List.nil_append]
+  have h2 := c04_rounds s.cfg t s.q l rounds (by rw [hfresh]; rfl) hn hr hl
+  simp only [proj, Prod.mk.injEq] at h2
+  rw [List.filter_filter]
+  have : (fun b => isAggBatch s.cfg t b && ofType t b) = isAggBatch s.cfg t := by
+    funext b
+    by_cases hb : isAggBatch s.cfg t b = true
+    · have : ofType t b = true := by
+        simp only [isAggBatch, Bool.and_eq_true, List.all_eq_true] at hb
+        simp only [ofType, Bool.and_eq_true, List.all_eq_true]
+        refine ⟨hb.1, fun x hx => ?_⟩
+        have := (kid_not_bypass (hb.2 x hx)).2
+        simp [this]
+      simp [hb, this]
+    · simp at hb; simp [hb]
+  rw [this]; exact h2.1
+
+/-- **registered one by one ⇒ delivered one by one**: a message type whose dispatch target is a plain-form
+handler reaches it message by message, all of them, in arrival order — whatever else is interleaved. -/
+theorem c04_registered_plain_one_by_one (s : IState) (l : List Msg) (t : Nat) (hi : HInv s.reg)
+    (ht : s.reg.target t = .handler .plain) :
+    (callsOf (irun s l).2).filter (ofType t) = (l.filter (fun m => m.ty == t)).map fun m => [m] := by
+  have hflag : s.reg.flags t = false := by
+    have ⟨h1, h2⟩ := target_handler ht
+    have := hi t .plain h1 h2
+    rw [this]; rfl
+  induction l generalizing s with
+  | nil => simp [irun, callsOf]
+  | cons m l ih =>
+    have hfr := istep_frame s m
+    have ih' := ih (istep s m).1 (by rw [hfr.2.1]; exact hi) (by rw [hfr.2.1]; exact ht) (by rw [hfr.2.1]; exact hflag)
+    have hco : ∀ (a b : List Outcome), callsOf (a ++ b) = callsOf a ++ callsOf b := by
+      intro a b; induction a with
+      | nil => rfl
+      | cons o a iha => cases o <;> simp [callsOf, iha]
+    simp only [irun, hco, List.filter_append, ih']
+    by_cases e : m.ty = t
+    · -- the message bypasses aggregation and is handed to the plain handler alone
+      have hb : bypass s.cfg m = true := by
+        simp [bypass, IState.cfg, e, hflag]
+      have hstep : (istep s m).2 = some (.calls [[m]]) := by
+        unfold istep
+        rw [c04_bypass s.cfg s.q m hb]
+        simp only
+        rw [c04_dispatch_handler_plain _ _ _ (by exact hi) (by rw [e]; exact ht)]
+        simp
+      simp [hstep, callsOf, ofType, e]
+    · -- another type: whatever is called holds no message of type t
+      have hne : (m.ty == t) = false := by simp [e]
+      simp only [List.filter_cons, hne]
+      suffices h : (callsOf (istep s m).2.toList).filter (ofType t) = [] by simp [h]
+      unfold istep
+      cases hb : (aggregate s.cfg s.q m).2 with
+      | none => simp [hb, callsOf]
+      | some b =>
+        simp only [hb, Option.toList]
+        -- every message of a released batch has the type of the message that released it only if queued ones
+        -- do; without the queue invariant we argue on the calls directly: they are [b] or singletons of b's
+        -- elements, and b = queue of m.ty ++ [m] or [m]
+        have hbm : ∀ x ∈ b, x = m ∨ x ∈ s.q m.ty := by
+          intro x hx
+          unfold aggregate at hb
+          split at hb
+          · simp at hb; subst hb; simp at hx; exact Or.inl hx
+          · simp only at hb
+            split at hb
+            · simp at hb; subst hb; simp at hx; rcases hx with hx | hx
+              · exact Or.inr hx
+              · exact Or.inl hx
+            · simp at hb
+        have hlast : m ∈ b := by
+          unfold aggregate at hb
+          split at hb
+          · simp at hb; subst hb; simp
+          · simp only at hb
+            split at hb
+            · simp at hb; subst hb; simp
+            · simp at hb
+        have hnot : ofType t b = false := by
+          simp only [ofType, Bool.and_eq_false_iff]
+          right
+          simp only [List.all_eq_false]
+          exact ⟨m, hlast, by simp [e]⟩
+        unfold dispatch
+        cases ({ s with q := (aggregate s.cfg s.q m).1 } : IState).reg.target m.ty with
+        | none => simp [callsOf]
+        | chan f c =>
+          simp only
+          cases ({ s with q := (aggregate s.cfg s.q m).1 } : IState).reg.flags m.ty <;> cases f <;> simp [callsOf]
+          · split <;> simp [callsOf]
+          · split <;> simp [callsOf]
+        | handler f =>
+          simp only
+          cases hfl : ({ s with q := (aggregate s.cfg s.q m).1 } : IState).reg.flags m.ty <;> cases f <;>
+            simp [callsOf, hnot]
+          -- plain handler, flag not set: the batch is [m] itself
+          have hbp : bypass s.cfg m = true := by
+            have : s.reg.flags m.ty = false := hfl
+            simp [bypass, IState.cfg, this]
+          rw [c04_bypass s.cfg s.q m hbp] at hb
+          simp at hb; subst hb
+          simp [ofType, e]
+
 /-- non-vacuity: the standard recording protocol's registrations (M1 slice handler, M3 plain handler, M2 slice
 channel, M4 plain channel) meet the hypotheses for type 1 -/
 example : (regScript Reg.empty Drv.stdScript).1.target 1 = .handler .slice := by decide
